@@ -33,11 +33,21 @@ def run_probe(flex, probe, workdir):
         return False, "flex printed %r" % probe["stderr_lacks"]
     if probe.get("stderr_has") and probe["stderr_has"] not in err:
         return False, "flex did not print %r" % probe["stderr_has"]
+    if probe.get("gen_lacks") or probe.get("gen_has"):
+        try:
+            gtxt = open(out, "rb").read().decode("latin1")
+        except OSError:
+            gtxt = ""
+        if probe.get("gen_lacks") and probe["gen_lacks"] in gtxt:
+            return False, "generated scanner contains %r" % probe["gen_lacks"]
+        if probe.get("gen_has") and probe["gen_has"] not in gtxt:
+            return False, "generated scanner lacks %r" % probe["gen_has"]
     if exp == "generates":
         return True, "generated"
     exe = os.path.join(workdir, "p.exe")
-    cc = ["g++" if cxx else "gcc", "-w", "-g", "-O1", "-fsanitize=address,undefined",
-          "-fno-sanitize-recover=all", "-I", flex.include, "-o", exe, out] + probe.get("ldflags", [])
+    cc = ["g++" if cxx else "gcc"] + (probe.get("cflags") or ["-w"]) + [
+        "-g", "-O1", "-fsanitize=address,undefined",
+        "-fno-sanitize-recover=all", "-I", flex.include, "-o", exe, out] + probe.get("ldflags", [])
     c = util.run(cc, cwd=workdir, env=util.clean_env(), timeout=120)
     if c.rc != 0:
         return False, "generated scanner does not compile: %s" % c.err.decode("latin1")[-600:]
